@@ -11,9 +11,9 @@ Definition a_step_failed (cnd thn : outcome) : Prop :=
   cnd = Failr \/ (cnd = Succeed /\ thn = Failr).
 
 (* Prop-level statement of the property for utils.Txn *)
-Definition txn_spec (cnd thn rb : outcome) (cp : cpoint) : Prop :=
-  let evs := fst (txn cnd thn rb cp) in
-  let res := snd (txn cnd thn rb cp) in
+Definition txn_spec (cnd thn rb : outcome) (cp : cpoint) (ca : cause) : Prop :=
+  let evs := fst (txn cnd thn rb cp ca) in
+  let res := snd (txn cnd thn rb cp ca) in
   (* the condition step always runs, first, under the caller-derived context *)
   (exists e rest, evs = e :: rest /\ who e = SCond /\ kind e = Derived /\ count_step SCond evs = 1) /\
   (* follow-up runs (once) only if condition succeeded (and exists) *)
@@ -23,9 +23,10 @@ Definition txn_spec (cnd thn rb : outcome) (cp : cpoint) : Prop :=
   (count_step SRollback evs = 1 <-> (a_step_failed cnd thn /\ rb <> Absent)) /\
   (count_step SRollback evs <= 1) /\
   (* rollback is last, is told whether cond was the failing step, and runs under a
-     context the caller's cancellation cannot reach *)
+     context the caller's cancellation or deadline cannot reach (it is never
+     expired on entry; it can only expire by outliving its own fresh ttl) *)
   (forall e, In e evs -> who e = SRollback ->
-      flag e = failed cnd /\ kind e = Detached /\ c_entry e = false /\ c_exit e = false
+      flag e = failed cnd /\ kind e = Detached /\ c_entry e = false /\ (ca <> ByTtl -> c_exit e = false)
       /\ exists front, evs = front ++ [e]) /\
   (* follow-up context is detached iff no rollback supplied *)
   (forall e, In e evs -> who e = SThen -> (kind e = Detached <-> rb = Absent)) /\
@@ -43,61 +44,61 @@ Ltac crush_in :=
 Ltac fin := intros; simpl in *; crush_in; simpl in *; subst;
   try congruence; try discriminate; try lia; auto.
 
-Lemma txn_spec_holds : forall cnd thn rb cp, cnd <> Absent -> txn_spec cnd thn rb cp.
+Lemma txn_spec_holds : forall cnd thn rb cp ca, cnd <> Absent -> txn_spec cnd thn rb cp ca.
 Proof.
-  intros cnd thn rb cp Hc. unfold txn_spec, ran, a_step_failed.
-  destruct cnd; [congruence| |]; destruct thn, rb; cbn -[In app];
+  intros cnd thn rb cp ca Hc. unfold txn_spec, ran, a_step_failed.
+  destruct cnd; [congruence| |]; destruct thn, rb, ca; cbn -[In app];
   (split; [do 2 eexists; repeat split; reflexivity|]);
   (split; [split; fin; try (split; congruence)|]);
   (split; [fin|]);
   (split; [split; fin; try (split; [tauto|congruence])|]);
   (split; [fin|]);
-  (split; [fin; repeat split; try reflexivity;
+  (split; [fin; repeat split; try reflexivity; try (intros; try reflexivity; congruence);
            first [eexists []; reflexivity | eexists [_]; reflexivity | eexists [_;_]; reflexivity]|]);
   (split; [fin; split; fin|]);
   reflexivity.
 Qed.
 
 (* PCR: rollback runs (once) iff prepare succeeded and commit failed *)
-Definition pcr_spec (prep com rb : outcome) (cp : cpoint) : Prop :=
-  let evs := fst (pcr prep com rb cp) in
-  let res := snd (pcr prep com rb cp) in
+Definition pcr_spec (prep com rb : outcome) (cp : cpoint) (ca : cause) : Prop :=
+  let evs := fst (pcr prep com rb cp ca) in
+  let res := snd (pcr prep com rb cp ca) in
   (count_step SRollback evs = 1 <-> (prep = Succeed /\ com = Failr)) /\
   (count_step SRollback evs <= 1) /\
   (ran SThen evs <-> prep = Succeed) /\
-  (forall e, In e evs -> who e = SRollback -> c_entry e = false /\ c_exit e = false) /\
+  (forall e, In e evs -> who e = SRollback -> c_entry e = false /\ (ca <> ByTtl -> c_exit e = false)) /\
   (res = match prep, com with Failr, _ => RCondErr | _, Failr => RThenErr | _, _ => RNil end).
 
-Lemma pcr_spec_holds : forall prep com rb cp,
-  prep <> Absent -> com <> Absent -> rb <> Absent -> pcr_spec prep com rb cp.
+Lemma pcr_spec_holds : forall prep com rb cp ca,
+  prep <> Absent -> com <> Absent -> rb <> Absent -> pcr_spec prep com rb cp ca.
 Proof.
-  intros prep com rb cp H1 H2 H3. unfold pcr_spec, ran.
+  intros prep com rb cp ca H1 H2 H3. unfold pcr_spec, ran.
   destruct prep; [congruence| |]; (destruct com; [congruence| |]);
-  (destruct rb; [congruence| |]); destruct cp; cbv -[In];
+  (destruct rb; [congruence| |]); destruct cp, ca; cbv -[In not];
   repeat split; intros; crush_in; simpl in *; try congruence; try lia; try discriminate; auto.
 Qed.
 
 (* the boolean reflection used by the correspondence check implies the Prop spec
    on the model's own output *)
-Lemma txn_ok_model : forall cnd thn rb cp, cnd <> Absent ->
-  txn_ok cnd thn rb (fst (txn cnd thn rb cp)) (snd (txn cnd thn rb cp)) = true.
+Lemma txn_ok_model : forall cnd thn rb cp ca, cnd <> Absent ->
+  txn_ok cnd thn rb ca (fst (txn cnd thn rb cp ca)) (snd (txn cnd thn rb cp ca)) = true.
 Proof.
-  intros cnd thn rb cp Hc. destruct cnd; [congruence| |]; destruct thn, rb, cp; reflexivity.
+  intros cnd thn rb cp ca Hc. destruct cnd; [congruence| |]; destruct thn, rb, cp, ca; reflexivity.
 Qed.
 
-Lemma pcr_ok_model : forall prep com rb cp,
+Lemma pcr_ok_model : forall prep com rb cp ca,
   prep <> Absent -> com <> Absent -> rb <> Absent ->
-  pcr_ok prep com rb (fst (pcr prep com rb cp)) (snd (pcr prep com rb cp)) = true.
+  pcr_ok prep com rb ca (fst (pcr prep com rb cp ca)) (snd (pcr prep com rb cp ca)) = true.
 Proof.
-  intros prep com rb cp H1 H2 H3.
+  intros prep com rb cp ca H1 H2 H3.
   destruct prep; [congruence| |]; (destruct com; [congruence| |]);
-  (destruct rb; [congruence| |]); destruct cp; reflexivity.
+  (destruct rb; [congruence| |]); destruct cp, ca; reflexivity.
 Qed.
 
 (* non-vacuity: a concrete run with a failing follow-up and caller cancellation
    during it: rollback runs once, flag false, uninterruptible *)
 Example txn_example :
-  txn Succeed Failr Succeed InThen =
+  txn Succeed Failr Succeed InThen ByCancel =
   ([mkEv SCond false Derived false false; mkEv SThen false Derived false true;
     mkEv SRollback false Detached false false], RThenErr).
 Proof. reflexivity. Qed.
